@@ -25,7 +25,7 @@ mkdir -p "$OUT"; cp _seed/patch.diff _seed/demo.py "$OUT/"; cp _seed/meta.json "
 cd /verif
 git -C "$WT" checkout -q --detach "$(git -C /repo rev-parse HEAD)" || { echo "cannot move worktree"; exit 2; }
 git -C "$WT" apply "$OUT/patch.diff" || { echo "patch does not apply to /repo HEAD"; exit 2; }
-CH=$(BUMBLE_REPO="$WT" timeout 1200 ./check "$PROP" --tier quick 2>/dev/null | grep -E "VIOLATION|KNOWN" | head -3)
+CH=$(BUMBLE_REPO="$WT" timeout 1200 ./check "$PROP" --tier quick 2>/dev/null | grep -E "^VIOLATION" | head -3)
 echo "check: $CH"
 /venv/bin/python - "$OUT" "$ID" "$PROP" "$T" "$RP" "$RO" "$CH" <<'PY'
 import json, sys
